@@ -263,6 +263,9 @@ package yubiattest
 //@   ensures [first-entry-decides] ok ==> exists(k, 0 <= k && k < len(extKeyUsageOIDs), oidEq(oid, extKeyUsageOIDs[k].oid) && eku == extKeyUsageOIDs[k].extKeyUsage &&
 //@     forall(j, 0 <= j && j < k, !oidEq(oid, extKeyUsageOIDs[j].oid)))
 //@   ensures !ok ==> eku == 0
+//@   # pinned from RFC 5280, 4.2.1.12: id-kp-serverAuth .. id-kp-OCSPSigning are 1.3.6.1.5.5.7.3.1 .. .9 and x509.ExtKeyUsage numbers them 1 .. 9; anyExtendedKeyUsage 2.5.29.37.0 is 0
+//@   ensures [pkix-key-purposes] forall(p, 1 <= p && p <= 9, isOID9(oid, 1, 3, 6, 1, 5, 5, 7, 3, p) ==> (ok && eku == p))
+//@   ensures [any-extended-key-usage] isOID5(oid, 2, 5, 29, 37, 0) ==> (ok && eku == 0)
 //@   loop 1:
 //@     invariant forall(k, 0 <= k && k <= rangeindex, !oidEq(oid, extKeyUsageOIDs[k].oid))
 
